@@ -14,4 +14,10 @@ def build():
     for m in mods:
         for c in m.CONTRACTS:
             reg.add(c)
+    # C07 (hash is a canonical fingerprint) rests on "no table holds an entry for a removed node or hyperedge": the table-domain
+    # conjuncts of wf (nm_exact, el_tables, liveness through _edge_list) re-proved after every mutator of the four containers
+    for q, c in reg.contracts.items():
+        if c.self_cls in ("Hypergraph", "DirectedHypergraph", "TemporalHypergraph", "MultiplexHypergraph") and \
+                c.path[-1] in ("add_node", "add_edge", "remove_edge", "remove_node", "clear") and "C07" not in c.properties:
+            c.properties.append("C07")
     return reg
